@@ -192,11 +192,11 @@ class PythonExpressionMapper(_CodegenStringifyMapper):
         self._numpy = numpy
 
     def map_constant(self, expr, *args):
-        if isinstance(expr, (float, np.number)):
-            if np.isinf(expr) or np.isnan(expr):
-                return "float('" + repr(expr) + "')"
         if isinstance(expr, np.generic):
             expr = expr.item()
+        if isinstance(expr, (float, np.floating)):
+            if np.isinf(expr) or np.isnan(expr):
+                return "float('" + repr(float(expr)) + "')"
 
         if (isinstance(expr, (int, float)) and not isinstance(expr, bool)
                 and expr < 0):
